@@ -22,7 +22,8 @@ let parse_op tok =
   | ["rmrange"; c; s1; s2] -> ORemoveRange (b c, n s1, n s2)
   | ["reset"; c; s; k] -> OResetKey (b c, n s, z k)
   | ["chk"; c; s; a] -> OChk (b c, n s, b a)
-  | ["ins"; c; k; s] -> OInsert (b c, z k, n s)
+  | ["ins"; c; k; s] | ["insext"; c; k; s] -> OInsert (b c, z k, n s)        (* Insert(ExtractedItem&&) = Insert of that key *)
+  | ["addatext"; c; s; k] -> OAddAt (b c, n s, z k)
   | ["insmany"; c; a; cnt] -> OInsMany (b c, z a, n cnt)
   | ["rmkey"; c; k] -> ORemoveKey (b c, z k)
   | ["rmif"; c; m] -> ORemoveIf (b c, z m)
@@ -49,13 +50,13 @@ let parse_aop tok = let open Arr in
   | ["adv"; s; d] -> AAdvance (n s, z d) | ["deref"; s] -> ADeref (n s)
   | ["diff"; a; b] -> ADiff (n a, n b) | ["less"; a; b] -> ALess (n a, n b)
   | ["idx"; i] -> AIndex (z i) | ["back"] -> ABack | ["addback"; v] -> AAddBack (z v) | ["rmback"; c] -> ARemoveBack (z c)
-  | ["ins"; i; v] -> AInsert (z i, z v) | ["rm"; i; c] -> ARemove (z i, z c) | ["clear"] -> AClear | ["setcount"; c] -> ASetCount (z c)
+  | ["ins"; i; v] -> AInsert (z i, z v) | ["insn"; i; c; v] -> AInsertN (z i, z c, z v) | ["rm"; i; c] -> ARemove (z i, z c) | ["clear"] -> AClear | ["setcount"; c] -> ASetCount (z c)
   | _ -> failwith ("bad op " ^ tok)
 let run_arr toks = let open Arr in
   let ops = Stdlib.List.map parse_aop toks in
   let (s, outs) = arun_out ainit ops in
   Printf.printf "%s| %s\n"
-    (String.concat "" (Stdlib.List.map (fun o -> (match o with AAcc (Some v) -> "A=" ^ string_of_z v | AAcc None -> "A" | ARej -> "R") ^ " ") outs))
+    (String.concat "" (Stdlib.List.map (fun o -> (match o with AAcc (Some v) -> "A=" ^ string_of_z v | AAcc None -> "A" | ARej -> "R" | AExn -> "X") ^ " ") outs))
     (show_keys s.items)
 (* ---- MultiMap.v ---- *)
 let parse_mop tok = let open MultiMap in
@@ -109,7 +110,7 @@ let () = iter_lines (fun line ->
   | "dth" :: toks -> (try run_dt toks with Failure m -> print_endline ("?" ^ m))
   | kind :: toks ->
     (try
-      let k = (match kind with "hs" | "hm" -> KHash | "ts" | "tm" -> KTree | _ -> failwith "kind") in
+      let k = (match kind with "hs" | "hm" | "ho" -> KHash | "ts" | "tm" | "tn" | "tnm" -> KTree | _ -> failwith "kind") in
       let ops = Stdlib.List.map parse_op toks in
       let (s, outs) = run_out k init ops in
       let c0 = getc s false and c1 = getc s true in
